@@ -461,7 +461,7 @@ def oracle(item, impl):
         return None
     conc = impl[0]
     for r in range(1, n + 1):
-        html, solo_html, fin, solo_fin, ev, solo_ev, cl, solo_cl, solo_skipped = conc[r - 1]
+        (html_eq, html_len, solo_len, win, solo_win), fin, solo_fin, ev, solo_ev, cl, solo_cl, solo_skipped = conc[r - 1]
         for e in ev:
             w = own_event(r, e)
             if w:
@@ -469,9 +469,9 @@ def oracle(item, impl):
         for cid, d in cl:
             if d != r:
                 return "cleanup %d of request %d ran while code of request %d was executing" % (cid, r, d)
-        if html != solo_html:
-            return "response of request %d differs from its solo render: %r vs %r" % (
-                r, first_diff(html, solo_html), first_diff(solo_html, html))
+        if not html_eq:
+            return "response of request %d (%d bytes) differs from its solo render (%d bytes): %r vs %r" % (
+                r, html_len, solo_len, C.show_bytes(win), C.show_bytes(solo_win))
         if bool(fin) != bool(solo_fin):
             return "request %d %s concurrently but %s alone" % (
                 r, "finished" if fin else "did not finish", "finished" if solo_fin else "did not finish")
@@ -483,13 +483,6 @@ def oracle(item, impl):
         if solo_skipped:
             return "%d steps that request %d took concurrently were not possible when it ran alone" % (solo_skipped, r)
     return None
-
-
-def first_diff(a, b):
-    i = 0
-    while i < min(len(a), len(b)) and a[i] == b[i]:
-        i += 1
-    return C.show_bytes(a[max(0, i - 30): i + 50])
 
 
 def nontrivial(item, model):
@@ -538,8 +531,8 @@ def coverage_extra(results):
     for r in ctl:
         n = len(r["item"]["case"][5])
         conc = r["impl"][0]
-        if any(own_event(q, e) for q in range(1, n + 1) for e in conc[q - 1][4]) or any(
-                conc[q - 1][0] != conc[q - 1][1] for q in range(1, n + 1)):
+        if any(own_event(q, e) for q in range(1, n + 1) for e in conc[q - 1][3]) or any(
+                not conc[q - 1][0][0] for q in range(1, n + 1)):
             leaked += 1
     cfgs = {}
     for r in results:
